@@ -40,6 +40,12 @@ Definition tmle_var_rd (l : list row) : Q := ic_var (map (tmle_ic_rd (Qred (tmle
 Definition tmle_var_lnrr (l : list row) : Q := ic_var (map (tmle_ic_rr (Qred (tmle_mean true l)) (Qred (tmle_mean false l))) l) (Qlen l).
 Definition tmle_var_lnor (l : list row) : Q := ic_var (map (tmle_ic_or (Qred (tmle_mean true l)) (Qred (tmle_mean false l))) l) (Qlen l).
 
+(* cross-fit AIPTW (difference measures): the variance of one partition is the MEAN over its parts of the within-part sample
+   variance (ddof 1) of the influence values y1 - y0 - estimate, over the number of rows n (aipw_calculator with `splits`);
+   a part is the list of its rows' pseudo-outcome pairs (y1, y0) *)
+Definition xf_part_var (est : Q) (part : list (Q * Q)) : Q := var_ddof1 (map (fun p => fst p - snd p - est) part).
+Definition xf_aipw_var (est : Q) (parts : list (list (Q * Q))) (n : Q) : Q := meanq (map (xf_part_var est) parts) / n.
+
 (* StochasticTMLE: mean of squared influence values over n (no ddof correction), per the cited estimator *)
 Definition mean_sq (v : list Q) : Q := Qsum (fun x => x * x) v / Qlen v.
 Definition stmle_var (v : list Q) : Q := mean_sq v / Qlen v.
